@@ -35,5 +35,6 @@ package schedulemanager
 //@   let c := delEntry.Crontab
 //@   ensures [inv]     R(sm)
 //@   ensures [removed] !(has(sm.Entries, c) && has(sm.Entries[c].Ids, delEntry.Id))
+//@   ensures [kept-ids] forall(i, string, i != delEntry.Id && old(has(sm.Entries, c) && has(sm.Entries[c].Ids, i)) ==> has(sm.Entries, c) && has(sm.Entries[c].Ids, i))
 //@   ensures [unknown] !old(has(sm.Entries, c) && has(sm.Entries[c].Ids, delEntry.Id)) ==> has(sm.Entries, c) == old(has(sm.Entries, c)) && cron.registered[c] == old(cron.registered[c])
 //@   ensures [others]  forall(d, string, d != c ==> has(sm.Entries, d) == old(has(sm.Entries, d)) && sm.Entries[d] == old(sm.Entries[d]))
